@@ -32,7 +32,8 @@ def internIdx (l : List String) (s : String) : List String × Nat :=
   | some i => (l, i)
   | none => (l ++ [s], l.length)
 
-def variant : Variant := ⟨Generated.C12.mergesLaterSpecs, Generated.C12.crossFeeds⟩
+def variant : Variant :=
+  ⟨Generated.C12.mergesLaterSpecs, Generated.C12.crossFeeds, Generated.C12.crossFeedFallback⟩
 
 def getCtx (st : DSt) (id : Nat) : Option Ctx := (st.ctxs.find? (fun p => p.1 == id)).map Prod.snd
 def putCtx (st : DSt) (id : Nat) (c : Ctx) : DSt :=
